@@ -19,6 +19,7 @@ import (
 	"testing/iotest"
 	"time"
 
+	"github.com/go-faster/jx"
 	"github.com/google/uuid"
 
 	ht "github.com/ogen-go/ogen/http"
@@ -288,6 +289,9 @@ func makeItem(tag string, r *vrng, invalid string) *api.Item {
 		it.Meta.SetTo(m)
 	}
 	switch invalid {
+	case "maxprops":
+		// more members than maxProperties admits, of which only some match the pattern: every member counts
+		it.Meta.SetTo(api.ItemMeta{"m-a-" + tag: 1, "m-b-" + tag: 2, "note": 3, "owner": 4})
 	case "pattern":
 		it.Name = "N-UPPER-" + tag
 	case "regexp2":
@@ -540,15 +544,23 @@ func (handler) EchoShapes(ctx context.Context, req *api.Shapes, params api.EchoS
 func makeShapes(tag string, r *vrng) (*api.Shapes, api.Shapes) {
 	sh := &api.Shapes{}
 	var exp api.Shapes
-	if r.coin() {
+	switch r.intn(3) {
+	case 0:
 		c := api.Circle{Kind: "circle", Radius: float64(r.intn(1000)) * 0.5}
 		sh.Pick = api.NewCircleShapesPick(c)
-	} else {
+	case 1:
 		q := api.Square{Kind: "square", Side: r.intn(1000)}
 		if r.coin() {
 			q.Label.SetTo("lab-" + tag)
 		}
 		sh.Pick = api.NewSquareShapesPick(q)
+	default:
+		// a variant that declares nothing but the discriminator and carries its data as additional members
+		l := api.Labels{Kind: "labels", AdditionalProps: api.LabelsAdditional{}}
+		for i, n := 0, r.intn(4); i < n; i++ {
+			l.AdditionalProps[fmt.Sprintf("l%d", i)] = fmt.Sprintf("lv%d-%s", i, tag)
+		}
+		sh.Pick = api.NewLabelsShapesPick(l)
 	}
 	switch r.intn(3) {
 	case 0:
@@ -659,6 +671,16 @@ func (handler) EchoParams(ctx context.Context, params api.EchoParamsParams) (*ap
 	yield(ctx)
 	saw(ctx, canon(params))
 	return paramsEcho(params), nil
+}
+
+func (handler) EchoAny(ctx context.Context, req jx.Raw) (*api.EchoAnyOK, error) {
+	yield(ctx)
+	saw(ctx, fmt.Sprintf("present=%v raw=%s", req != nil, string(req)))
+	out := &api.EchoAnyOK{Present: req != nil}
+	if req != nil {
+		out.Raw.SetTo(string(req))
+	}
+	return out, nil
 }
 
 // optSeen is what the handler of the operation with an optional body records.
@@ -946,6 +968,12 @@ func doCall(ctx context.Context, c *api.Client, rec *CallRecord) {
 			params.Tags = []string{"qa-" + tag, "qb," + tag}
 		}
 		if r.coin() {
+			// a second exploded array in the same query: each keeps its own members
+			for i, n := 0, 1+r.intn(4); i < n; i++ {
+				params.Ids = append(params.Ids, r.intn(100000))
+			}
+		}
+		if r.coin() {
 			params.Sess.SetTo("s-" + tag)
 		}
 		exp := itemWithDefaults(it)
@@ -985,6 +1013,11 @@ func doCall(ctx context.Context, c *api.Client, rec *CallRecord) {
 		}
 		if r.coin() {
 			f.Langs = []string{"go-" + tag, "c++ " + tag}
+		}
+		if r.coin() {
+			for i, n := 0, 1+r.intn(4); i < n; i++ {
+				f.Marks = append(f.Marks, r.intn(100))
+			}
 		}
 		if r.coin() {
 			f.Range.SetTo(makeRange(tag, r)) // form style, exploded: the members travel under their own names
@@ -1177,6 +1210,15 @@ func doCall(ctx context.Context, c *api.Client, rec *CallRecord) {
 				}
 				params.XList = append(params.XList, h)
 			}
+			// white space next to an interior comma travels (HTTP trims the outer edges of the whole value only)
+			for i := range params.XList {
+				if i > 0 && r.intn(3) == 0 {
+					params.XList[i] = " " + params.XList[i]
+				}
+				if i < len(params.XList)-1 && r.intn(3) == 0 {
+					params.XList[i] += " "
+				}
+			}
 		}
 		if r.coin() {
 			params.XOne.SetTo(headerTexts[r.intn(len(headerTexts))] + " " + tag)
@@ -1190,6 +1232,22 @@ func doCall(ctx context.Context, c *api.Client, rec *CallRecord) {
 		rec.ExpectClientGot = canon(*paramsEcho(params))
 		rec.ExpectStatus = 200
 		res, err := c.EchoParams(ctx, params)
+		finish(rec, res, err)
+	case "echoAny":
+		// an optional body of any JSON type: absent, or a value - of which null is one
+		raws := []string{"", "null", "1", `"s t"`, `{"a":[1,null]}`, "[]", "false"}
+		raw := raws[r.intn(len(raws))]
+		var req jx.Raw
+		out := api.EchoAnyOK{}
+		if raw != "" {
+			req = jx.Raw(raw)
+			out.Present = true
+			out.Raw.SetTo(raw)
+		}
+		rec.ExpectServerSaw = fmt.Sprintf("present=%v raw=%s", req != nil, raw)
+		rec.ExpectClientGot = canon(out)
+		rec.ExpectStatus = 200
+		res, err := c.EchoAny(ctx, req)
 		finish(rec, res, err)
 	case "echoOpt":
 		// an operation whose body is optional: nothing, a JSON object, or a stream of unknown length
